@@ -36,6 +36,7 @@ type Obligation struct {
 	Variant    string   `json:"variant,omitempty"` // GOOS of the build variant that produced it (thorough tier)
 	Shape      string   `json:"shape,omitempty"`   // name-independent address (see shapes.go)
 	ShapeSeed  string   `json:"-"`
+	LooseSeed  string   `json:"-"` // parameter-count-insensitive seed of a recursive cycle
 	LocalSeed  string   `json:"-"`                     // fingerprint of the construct itself (a loop's blocks)
 	ShapeLocal string   `json:"shape_local,omitempty"` // rule ~ function name ~ construct fingerprint ~ ordinal
 	LocalSize  int      `json:"-"`                     // instructions in the construct
@@ -230,8 +231,10 @@ func (c *Check) Classify(t *Tables) {
 		return nil
 	}
 	// a row whose key matches nothing on this run, for the same rule and the same
-	// construct in a function that is now only a caller of o's function: the
-	// construct was moved into a helper of the function the row names
+	// construct in a function that is now a caller of o's function (its only caller,
+	// up to three steps away, or a direct caller in the same package while the
+	// named function is kept as a wrapper): the construct was moved into a helper
+	// of the function the row names
 	byMove := func(rows []tableRow, o *Obligation) *tableRow {
 		op := strings.SplitN(o.Key, "|", 3)
 		if len(op) != 3 || c.P == nil {
@@ -251,7 +254,46 @@ func (c *Check) Classify(t *Tables) {
 				if !((mode == 1 && named) || (mode == 2 && r.Property == "*")) {
 					continue
 				}
-				if c.P.onlyHelperOf(op[1], rp[1]) {
+				if c.P.onlyHelperOf(op[1], rp[1]) || c.P.directCallee(op[1], rp[1]) {
+					return r
+				}
+			}
+		}
+		return nil
+	}
+	// a row for the same rule and construct in a function of the same package and
+	// the same bare name, when the function the row names no longer exists: a
+	// function turned into a method (or back, or moved to another receiver)
+	exists := map[string]bool{}
+	if c.P != nil {
+		for _, f := range c.P.RepoFuncs() {
+			exists[fnName(f)] = true
+		}
+	}
+	byBareName := func(rows []tableRow, o *Obligation) *tableRow {
+		op := strings.SplitN(o.Key, "|", 3)
+		if len(op) != 3 || c.P == nil {
+			return nil
+		}
+		opkg, obare := fnPkgBare(op[1])
+		if obare == "" {
+			return nil
+		}
+		for _, mode := range []int{1, 2} {
+			for i := range rows {
+				r := &rows[i]
+				if live[r.Key] {
+					continue
+				}
+				rp := strings.SplitN(r.Key, "|", 3)
+				if len(rp) != 3 || rp[0] != op[0] || rp[2] != op[2] || rp[1] == op[1] || exists[rp[1]] {
+					continue
+				}
+				named := r.Property != "*" && (r.Property == c.Prop || strings.Contains(","+r.Property+",", ","+c.Prop+","))
+				if !((mode == 1 && named) || (mode == 2 && r.Property == "*")) {
+					continue
+				}
+				if rpkg, rbare := fnPkgBare(rp[1]); rpkg == opkg && rbare == obare {
 					return r
 				}
 			}
@@ -288,6 +330,10 @@ func (c *Check) Classify(t *Tables) {
 					o.Verdict, o.Reason, o.ByShape = Known, r.What+" [row "+r.Key+": the construct now sits in a helper only that function calls]", true
 				} else if r := byMove(t.Exceptions, o); r != nil {
 					o.Verdict, o.Reason, o.ByShape = Exception, r.Reason+" [row "+r.Key+": the construct now sits in a helper only that function calls]", true
+				} else if r := byBareName(knownOnly(t.Known), o); r != nil {
+					o.Verdict, o.Reason, o.ByShape = Known, r.What+" [row "+r.Key+": the function is now a method (or a function) of the same name in the same package]", true
+				} else if r := byBareName(t.Exceptions, o); r != nil {
+					o.Verdict, o.Reason, o.ByShape = Exception, r.Reason+" [row "+r.Key+": the function is now a method (or a function) of the same name in the same package]", true
 				}
 			}
 		case Undecided:
@@ -508,4 +554,21 @@ func (c *Check) finish(t *Tables, start time.Time, extra map[string]interface{},
 func (o *Obligation) setLocal(seed string, size int) *Obligation {
 	o.LocalSeed, o.LocalSize = seed, size
 	return o
+}
+
+// fnPkgBare splits a function name as printed in keys — "pkg/x.f", "(*pkg/x.T).m",
+// "(pkg/x.T).m$1" — into its package and its bare name (closure suffix kept).
+func fnPkgBare(name string) (string, string) {
+	i := strings.LastIndex(name, ".")
+	if i < 0 {
+		return "", ""
+	}
+	owner, bare := name[:i], name[i+1:]
+	if strings.HasPrefix(owner, "(") && strings.HasSuffix(owner, ")") {
+		owner = strings.TrimSuffix(strings.TrimPrefix(strings.TrimPrefix(owner, "("), "*"), ")")
+		if j := strings.LastIndex(owner, "."); j >= 0 {
+			owner = owner[:j]
+		}
+	}
+	return owner, bare
 }
